@@ -1,9 +1,10 @@
-(* Props/C04Gen.v — C04, wave 3b: the sparse region read of the hand model (Model/C04Model.v) stated over the functions the
+(* Props/C04Gen.v — C04, wave 3b + wave 4 (all modes, dispatcher): the sparse region read of the hand model (Model/C04Model.v) stated over the functions the
    translator GENERATES from /repo/pyttb/pyttb_utils.py (Gen/GenUtils3.v, regenerated on every run).
    Only statements, `exact`, Print Assumptions (+ a concrete non-vacuity example). *)
 From Coq Require Import List Arith ZArith Bool.
 From PV Require Import Base.Index Np.NpZ Np.NpZ2 Np.NpZ3 Gen.GenUtils3 Model.W3Utils.
-From PV Require Import Model.C04Model Proofs.C04RegionGet Proofs.C04GenBridge.
+From PV Require Import Np.Array Model.Sparse Model.C04Model Proofs.C04RegionGet Proofs.C04GenBridge Proofs.C04GenRegion Proofs.C04AsIs.
+From PV Require Gen.GenUtils Proofs.NpZProofs Proofs.C04GenLinear Model.C04AsIs.
 Import ListNotations.
 
 (* one mode of sptensor.__getitem__(region): e = the key element (integer incl. negative, slice with any bounds / step, index
@@ -52,3 +53,115 @@ Example C04_gen_region_read_mode_example :
   tt_renumberdim (zs [3; 1; 3]) 5 (zkey 5 (C04Model.KList [3; 0; 1]%Z)) = Ok ([0; 2; 0]%Z, 3%Z) /\
   tt_renumberdim (zs [3; 3]) 5 (zkey 5 (C04Model.KInt (-2)%Z)) = Ok ([0; 0]%Z, 0%Z).
 Proof. repeat split; vm_compute; reflexivity. Qed.
+
+(* ---- wave 4: ALL modes ---- *)
+(* the mode loop of the GENERATED tt_renumber: for every shape s, every key es the specification accepts on s (integers incl.
+   negative, slices with any bounds / step, index lists) whose lists do not repeat an index, and every non-empty list F of
+   stored subscripts that passed the subdims filter, tt_renumber called as sptensor.__getitem__ calls it returns, for every
+   entry and every mode, the position of the subscript inside the selection of the mode (renum0) and the extents
+   (len l; 0 for an integer mode, which the caller drops) *)
+Theorem C04_gen_renumber_region : forall (s : shape) (es : list C04Model.kelem) ls (F : list idx),
+  region_lists s es = Some ls ->
+  Forall (fun kl : bool * list nat => NoDup (snd kl)) ls ->
+  F <> [] -> s <> [] ->
+  (forall p, In p F -> inside ls p) ->
+  tt_renumber (map zs F) (zs s) (zkeys s es) = Ok (map (fun p => zs (renum0 ls p)) F, new_sizes ls).
+Proof. exact gen_renumber_region. Qed.
+Print Assumptions C04_gen_renumber_region.
+
+(* nothing stored inside the region: tt_renumber only computes sizes; the kept ones are the kept shape *)
+Theorem C04_gen_renumber_region_empty : forall (s : shape) (es : list C04Model.kelem) ls,
+  region_lists s es = Some ls ->
+  tt_renumber [] (zs s) (zkeys s es) = Ok ([], esizes s es) /\ keepc ls (esizes s es) = zs (kept_shape ls).
+Proof. exact gen_renumber_region_empty. Qed.
+Print Assumptions C04_gen_renumber_region_empty.
+
+(* C04_sparse_region_read over the GENERATED function: take the stored entries that pass the filter (F), renumber their
+   subscripts with the generated tt_renumber, keep the columns / sizes of the kept modes (subs[:, kpdims], shape[kpdims]) and
+   carry the values along: that object is the model's sp_region_get S es, has the kept shape and holds at EVERY subscript j
+   inside it what S holds at the position j selects.  Value type, shape, number of modes and stored order arbitrary *)
+Theorem C04_gen_sparse_region_read : forall {V : Type} (v0 : V) (S : sparse V) es ls ns nsh,
+  region_lists (sshape S) es = Some ls ->
+  Forall (fun x : bool * list nat => NoDup (snd x)) ls ->
+  sshape S <> [] ->
+  let F := filter (fun e : idx * V => insideb ls (fst e)) (entries S) in
+  F <> [] ->
+  tt_renumber (map zs (map fst F)) (zs (sshape S)) (zkeys (sshape S) es) = Ok (ns, nsh) ->
+  let R := mkSp (unzs (keepc ls nsh)) (map (fun r => unzs (keepc ls r)) ns) (map snd F) in
+  sp_region_get S es = Some R /\
+  sshape R = kept_shape ls /\
+  (forall j, inb (kept_shape ls) j = true -> den_sp v0 R j = den_sp v0 S (select ls j)).
+Proof. exact @gen_sparse_region_read. Qed.
+Print Assumptions C04_gen_sparse_region_read.
+
+(* the filter predicate is region membership *)
+Theorem C04_gen_filter_is_region : forall ls p, insideb ls p = true <-> inside ls p.
+Proof. exact insideb_spec. Qed.
+Print Assumptions C04_gen_filter_is_region.
+
+(* the five key forms of the specification against the GENERATED dispatcher get_index_variant: each is sent to the branch the
+   model describes (LINEAR: integer, slice, list of integers, 1-d integer array; SUBSCRIPTS: 2-d integer array; SUBTENSOR:
+   tuple); the empty index list is refused by the dispatcher and by the specification *)
+Theorem C04_gen_dispatch : forall (k : C04Model.key) as_array te,
+  k <> KLinList [] \/ as_array = true ->
+  get_index_variant (pykey_of k as_array te) = Ok (variant_of k).
+Proof. exact gen_dispatch. Qed.
+Print Assumptions C04_gen_dispatch.
+
+Theorem C04_gen_dispatch_empty_list : forall s,
+  get_index_variant (pykey_of (KLinList []) false []) = Err /\ resolve_get s (KLinList []) = None.
+Proof. exact gen_dispatch_empty_list. Qed.
+Print Assumptions C04_gen_dispatch_empty_list.
+
+(* the trigger of the open finding C04-N04 is exact on all-slice keys: OUTSIDE it (every slice has start None or >= 0, stop None
+   or > 0, step None or 1) the GENERATED tt_irenumber - the as-is code of sptensor.__setitem__ with a sparse right-hand side -
+   sends every stored subscript y of the operand to the position the specification assigns it to (select ls y), for any number
+   of modes, stored entries and stored order; a disagreement needs a step or a negative bound *)
+Theorem C04_gen_irenumber_unit_slices : forall (s : shape) (es : list C04Model.kelem) ls (Ysubs : list idx) (vals shp : vec),
+  forallb unit_sliceb es = true ->
+  region_lists s es = Some ls -> Ysubs <> [] -> s <> [] ->
+  (forall y, In y Ysubs -> inb (kept_shape ls) y = true) ->
+  tt_irenumber (mkspt (map zs Ysubs) vals shp) (zs s) (zkeys s es) = Ok (map (fun y => zs (select ls y)) Ysubs).
+Proof. exact asis_agrees_unit_slices. Qed.
+Print Assumptions C04_gen_irenumber_unit_slices.
+
+Example C04_gen_irenumber_unit_slices_example :
+  tt_irenumber (mkspt (map zs [[1; 0]; [0; 2]]) [7; 8]%Z [2; 3]%Z) (zs [4; 5]) (zkeys [4; 5] [C04Model.KSlice (Some 1%Z) (Some 3%Z) None; C04Model.KSlice (Some 2%Z) None (Some 1%Z)])
+  = Ok [[2; 2]; [1; 4]]%Z /\
+  select [(true, [1; 2]); (true, [2; 3; 4])] [0; 2] = [1; 4].
+Proof. split; vm_compute; reflexivity. Qed.
+
+(* LINEAR keys over the GENERATED tt_ind2sub (Gen/GenUtils.v; tensor.__getitem__ / _set_linear and sptensor.__getitem__ convert
+   linear indices with it): for every shape and every linear key the specification accepts - integer, list / 1-d array of
+   integers (negative ones count from the end), slice of range(prod(shape)) with any bounds / step - the generated function
+   returns exactly the positions of the specification (first index fastest), in the order of the key *)
+Theorem C04_gen_linear_positions : forall (s : shape) (k : C04Model.key) os ps,
+  C04GenLinear.is_linear k = true -> resolve_get s k = Some (os, ps) ->
+  GenUtils.tt_ind2sub (NpZProofs.zs s) (C04GenLinear.lin_indices s k) OrdF = Ok (map NpZProofs.zs ps).
+Proof. exact C04GenLinear.gen_linear_positions. Qed.
+Print Assumptions C04_gen_linear_positions.
+
+(* an index outside [-size, size) is refused by the generated function and by the specification *)
+Theorem C04_gen_linear_rejects : forall (s : shape) (l : list Z),
+  (exists z, In z l /\ (Z.of_nat (size s) <= z \/ z < - Z.of_nat (size s))%Z) ->
+  GenUtils.tt_ind2sub (NpZProofs.zs s) l OrdF = Err /\ resolve_get s (KLinList l) = None.
+Proof. exact C04GenLinear.gen_linear_rejects. Qed.
+Print Assumptions C04_gen_linear_rejects.
+
+Example C04_gen_sparse_region_read_example :
+  let S := mkSp [4; 3; 5] [[3; 2; 4]; [0; 2; 0]; [1; 1; 4]; [3; 0; 2]] [7; 8; 9; 6]%Z in
+  let es := [C04Model.KList [3; 1]%Z; C04Model.KInt (-1); C04Model.KSlice (Some 4%Z) None (Some (-2)%Z)] in
+  tt_renumber (map zs [[3; 2; 4]]) (zs [4; 3; 5]) (zkeys [4; 3; 5] es) = Ok ([[0; 0; 0]%Z], [2; 0; 3]%Z) /\
+  sp_region_get S es = Some (mkSp [2; 3] [[0; 0]] [7%Z]).
+Proof. exact gen_sparse_region_read_example. Qed.
+
+(* INSIDE the trigger the as-is code and the specification differ (open finding C04-N04): the as-is model built from the generated
+   tt_irenumber (Model/C04AsIs.v) on the witness S[0, 0:3:2] = <7, 8> puts 8 at (0,1); the specified sparse step puts it at (0,2) *)
+Example C04_asis_n04_witness :
+  C04AsIs.asis_set (mkSp [2; 3] [[1; 1]; [0; 0]; [0; 2]] [1; 2; 3]%Z) [C04Model.KInt 0; C04Model.KSlice (Some 0%Z) (Some 3%Z) (Some 2%Z)]
+           (mkSp [2] [[0]; [1]] [7; 8]%Z)
+  = Some (C04AsIs.mkRaw [2; 3]%Z [[1; 1]; [0; 0]; [0; 1]]%Z [1; 7; 8]%Z, false) /\
+  option_map fst (step_sparse 0%Z (Z.eqb 0) (mkSp [2; 3] [[1; 1]; [0; 0]; [0; 2]] [1; 2; 3]%Z)
+     (OSet (KRegion [C04Model.KInt 0; C04Model.KSlice (Some 0%Z) (Some 3%Z) (Some 2%Z)]) (RValues [7; 8]%Z)))
+  = Some (mkSp [2; 3] [[1; 1]; [0; 0]; [0; 2]] [1; 7; 8]%Z).
+Proof. split; vm_compute; reflexivity. Qed.
